@@ -202,7 +202,7 @@ def dispatch(repo: Repo) -> List[Ob]:
     obs: List[Ob] = []
     P = ("C12",)
     total = 0
-    ops_funcs = {f.node.name: f for f in repo.all_functions() if f.module.name.endswith("_math.ops")}
+    ops_funcs = {f.node.name: f for f in repo.all_functions() if f.module.name.startswith("photon_weave._math")}
     for ename in ENUMS:
         ci = repo.cls(ename)
         members = enum_members(ci)
@@ -360,7 +360,7 @@ def _mode_suffix(p) -> str:
 
 
 def make_hook(repo: Repo, depth: int = 0):
-    ops_funcs = {f.node.name: f for f in repo.all_functions() if f.module.name.endswith("_math.ops")}
+    ops_funcs = {f.node.name: f for f in repo.all_functions() if f.module.name.startswith("photon_weave._math")}
 
     def hook(folder: Folder, e: ast.Call):
         n = np_name(e.func) or (e.func.id if isinstance(e.func, ast.Name) else (dotted(e.func) or "").split(".")[-1])
